@@ -73,6 +73,10 @@ impl<'w> FnTr<'w> {
             if !ok { return Err(self.err(e, "only `HashMap::new()` / `HashMap::with_hasher(nohash_hasher::BuildNoHashHasher::default())` are in the mapping table")); }
             return Ok(Ex::atom("hmNew", RTy::HashMap(Box::new(RTy::Infer), Box::new(RTy::Infer))));
         }
+        // --- `Vec::new()`: the empty list (element type from the first use)
+        if segs.len() == 2 && segs[0] == "Vec" && last == "new" && args.is_empty() {
+            return Ok(Ex::atom("[]", RTy::VecList(Box::new(RTy::Infer))));
+        }
         // --- `T::default()` of a regenerated struct with `#[derive(Default)]`: all fields 0 / false
         if segs.len() == 2 && last == "default" && args.is_empty() {
             if let Some(si) = self.world.structs.get(&segs[0]) {
@@ -175,7 +179,9 @@ impl<'w> FnTr<'w> {
                     let a = rust_arg(*i).ok_or_else(|| self.err(e, "missing argument"))?;
                     let n = path_ident(a).ok_or_else(|| self.err(e, "a `&mut` struct argument must be a variable"))?;
                     let v = self.lookup(&n).cloned().ok_or_else(|| self.err(e, "unknown variable"))?;
-                    if !v.mutable || v.ty != p.ty { return Err(self.err(e, "a `&mut` struct argument must be a mutable variable of that struct type")); }
+                    if !v.mutable || !v.ty.compat(&p.ty) { return Err(self.err(e, "a `&mut` struct argument must be a mutable variable of that struct type")); }
+                    // (`let mut buffer = Vec::new();`: the element type becomes known here)
+                    if v.ty != p.ty { if let Some(i) = self.env.iter().rposition(|w| w.rust == n) { self.env[i].ty = p.ty.clone(); } }
                     self.note_use(&v.lean);
                     inout_names.push(v.lean.clone());
                     out.push(v.lean);
@@ -190,6 +196,16 @@ impl<'w> FnTr<'w> {
                 Origin::ParamField(i, f) => {
                     // an argument that is a VALUE of a regenerated struct: the field is a projection
                     if let Some(a) = rust_arg(*i) {
+                        // a flattened struct LOCAL: the field is a variable of its own
+                        if let Some(an) = path_ident(a) {
+                            if matches!(self.lookup(&an).map(|v| (v.ty.clone(), v.param)), Some((RTy::Flat(_), None))) {
+                                let v = self.lookup(&format!("{}.{}", an, f)).cloned().ok_or_else(|| self.err(e, "unknown field of a flattened struct local"))?;
+                                if v.ty != p.ty { return Err(self.err(e, &format!("field `{}` has type {} in the struct local but {} in the callee", f, v.ty.rust(), p.ty.rust()))); }
+                                self.note_use(&v.lean);
+                                out.push(v.lean);
+                                continue;
+                            }
+                        }
                         if path_ident(a).as_deref() != Some("self") && self.flat_var(a).is_none() {
                             let x = self.tr_expr(a, None)?;
                             if let RTy::Struct(sn) = &x.ty {
@@ -299,6 +315,22 @@ impl<'w> FnTr<'w> {
         if recv_name.as_deref() == Some("self") && matches!(self.lookup("self").map(|v| v.ty.clone()), Some(RTy::Flat(_)) | None) {
             let ns = self.target.container.ns().map(|s| s.to_string());
             if let Some(info) = self.world.fns.get(&(ns, method.clone())).cloned() {
+                // `if self.is_move_legal(mv) {..}`: a `&mut self` method that returns a value, where the statement allows one
+                // side-effecting call to run first: `let (r, fields..) ← call` goes before the statement, the value is `r`
+                if !info.self_mutated.is_empty() && info.ret != RTy::Unit && !self.in_call_stmt && self.effect_allowed == Some(mc as *const _) {
+                    self.effect_allowed = None;
+                    if !info.inout.is_empty() { return Err(self.err(e, "method with both `&mut self` and `&mut` struct parameters")); }
+                    let r = self.fresh("r");
+                    let mut names = vec![r.clone()];
+                    for f in &info.self_mutated { let v = self.self_field_var(e, f)?; self.note_use(&v.lean); names.push(v.lean); }
+                    self.in_call_stmt = true;
+                    let x = self.call_translated(e, &info, Some(&mc.receiver), &args);
+                    self.in_call_stmt = false;
+                    let x = x?;
+                    let m = x.m.clone().ok_or_else(|| self.err(e, "internal: call is not monadic"))?;
+                    self.pending.push(format!("let {} ← {}", crate::stmt::pat_tuple(&names), m));
+                    return Ok(Ex::atom(r, info.ret.clone()));
+                }
                 return self.call_translated(e, &info, Some(&mc.receiver), &args);
             }
             return Err(self.err(e, "method of `self` that is neither opaque (table) nor registered for translation"));
@@ -329,6 +361,24 @@ impl<'w> FnTr<'w> {
         }
         // --- mapping table on primitive receivers ---
         let recv = self.tr_expr(&mc.receiver, None)?;
+        // a value of an OPAQUE TABLE type (`magics.get_attacks(sq, occ)`): its lookup function applied to the arguments
+        if let RTy::Table(tn) = &recv.ty {
+            let tt = crate::targets::TABLE_TYPES.iter().find(|t| t.0 == tn).ok_or_else(|| self.err(e, "bad table type"))?;
+            if method != tt.1 || args.len() != tt.2.len() { return Err(self.err(e, &format!("only `{}` with {} argument(s) may be called on a value of the opaque table type `{}`", tt.1, tt.2.len(), tn))); }
+            let mut xs = vec![];
+            for (a, at) in args.iter().zip(tt.2.iter()) {
+                let want: syn::Type = syn::parse_str(at).map_err(|_| self.err(e, "bad argument type in the table"))?;
+                let want = self.resolve_type(&want)?;
+                let x = self.tr_expr(a, Some(&want))?;
+                if x.ty != want { return Err(self.err(e, &format!("argument of type {} where {} is expected", x.ty.rust(), want.rust()))); }
+                xs.push(x);
+            }
+            let ret: syn::Type = syn::parse_str(tt.3).map_err(|_| self.err(e, "bad result type in the table"))?;
+            let ret = self.resolve_type(&ret)?;
+            let mut r = Ex::pure(format!("{} {}", recv.a(), xs.iter().map(|x| x.a()).collect::<Vec<_>>().join(" ")), ret);
+            r.pure = recv.pure && xs.iter().all(|x| x.pure);
+            return Ok(r);
+        }
         // a value of a regenerated struct computed by an expression (`self.get_unchecked(i).get_attacks(occ)`)
         if let RTy::Struct(sname) = &recv.ty {
             if let Some(info) = self.world.fns.get(&(Some(sname.clone()), method.clone())).cloned() {
